@@ -58,7 +58,18 @@ type Scenario struct {
 	Pollers   int          `json:"pollers,omitempty"`
 	Perturb   bool         `json:"perturb,omitempty"`
 	NoHook    bool         `json:"no_hook,omitempty"`
-	Seed      int64        `json:"seed"`
+	// CtxKind "own": the lane gets a context type of the harness' own (its own Done channel, no
+	// standard-library cancelCtx underneath) - a context whose cancellation the lane can only learn
+	// from Done()/Err() themselves. "" = context.WithCancel / WithTimeout.
+	CtxKind string `json:"ctx_kind,omitempty"`
+	// Siblings: that many further child contexts hang off the lane's context (a cancel walks them all).
+	Siblings int `json:"siblings,omitempty"`
+	// Observers: goroutines parked in <-ctx.Done() that push the moment they are woken - pushes that
+	// begin after the context is cancelled, but possibly before cancel() has returned to its caller.
+	Observers int `json:"observers,omitempty"`
+	// SyncPost: pushes made by the cancelling goroutine itself right after cancel() returned.
+	SyncPost int   `json:"sync_post,omitempty"`
+	Seed     int64 `json:"seed"`
 }
 
 // ---- run-time state -------------------------------------------------------------------------
@@ -86,6 +97,40 @@ type task struct {
 	panicVal   any
 	pin        bool
 	post       bool
+	afterDone  bool // pushed by a goroutine that had already seen ctx.Done() closed
+}
+
+// ownCtx is a context.Context implementation that is not the standard library's: Done is its own
+// channel, Err its own field, Value is delegated. Cancelling closes Done after Err is set, as the
+// context contract demands.
+type ownCtx struct {
+	parent context.Context
+	done   chan struct{}
+	mu     sync.Mutex
+	err    error
+	dl     time.Time
+	hasDl  bool
+}
+
+func newOwnCtx(parent context.Context) *ownCtx {
+	return &ownCtx{parent: parent, done: make(chan struct{})}
+}
+
+func (c *ownCtx) Deadline() (time.Time, bool) { return c.dl, c.hasDl }
+func (c *ownCtx) Done() <-chan struct{}       { return c.done }
+func (c *ownCtx) Value(k any) any             { return c.parent.Value(k) }
+func (c *ownCtx) Err() error {
+	c.mu.Lock()
+	defer c.mu.Unlock()
+	return c.err
+}
+func (c *ownCtx) finish(err error) {
+	c.mu.Lock()
+	if c.err == nil {
+		c.err = err
+		close(c.done)
+	}
+	c.mu.Unlock()
 }
 
 type viol struct{ prop, key, exp, obs string }
